@@ -109,6 +109,11 @@ func Generate(r *rand.Rand, profile string) *Scenario {
 		sc.Cfg.Env = "slowbind"
 		sc.Cfg.Cycles = pick(2, 3)
 	}
+	if (profile == "full" || profile == "mixed" || profile == "slots" || profile == "fraction") && sc.Cfg.Env == "closed" && chance(0.15) {
+		// lagging informers: for one cycle a BindRequest already says Succeeded while its pod still looks unbound
+		sc.Cfg.Env = "lagpod"
+		sc.Cfg.Cycles = pick(2, 3)
+	}
 	if profile != "closed" && profile != "fifo" {
 		if chance(0.2) {
 			sc.Cfg.BindFail = []int{1 + r.Intn(4)}
